@@ -68,6 +68,14 @@ func (n *BitcoinNode) handleMessage(ctx context.Context, connection net.Conn) er
 	errChan := make(chan error, 1)
 	start := time.Now()
 	go func() {
+		defer func() {
+			// Message data is controlled by the peer, so a panic while decoding it must only cost
+			// this connection and not the process.
+			if pnc := recover(); pnc != nil {
+				errChan <- fmt.Errorf("panic : %v", pnc)
+			}
+		}()
+
 		errChan <- handler(ctx, header, connection)
 	}()
 
@@ -796,7 +804,7 @@ func (n *BitcoinNode) handleBlock(ctx context.Context, header *wire.MessageHeade
 		}
 
 		tx := &wire.MsgTx{}
-		if err := tx.Deserialize(rb); err != nil {
+		if err := deserializeTx(rb, tx); err != nil {
 			close(txChannel)
 			wait.Wait()
 			logger.Verbose(ctx, "Aborting block download (read tx) : %s", err)
@@ -809,4 +817,16 @@ func (n *BitcoinNode) handleBlock(ctx context.Context, header *wire.MessageHeade
 	close(txChannel)
 	wait.Wait()
 	return nil
+}
+
+// deserializeTx reads a tx from a peer. The data is controlled by the peer, so a panic while decoding
+// it is returned as an error and the usual clean up runs.
+func deserializeTx(r io.Reader, tx *wire.MsgTx) (err error) {
+	defer func() {
+		if pnc := recover(); pnc != nil {
+			err = fmt.Errorf("panic : %v", pnc)
+		}
+	}()
+
+	return tx.Deserialize(r)
 }
